@@ -133,6 +133,30 @@ def run(ctx):
                             break
                     if fam == "base":
                         base_depths[o.name] = want
+                    # one rule instance serving several requests with other variable values
+                    bool_vars = [n for n, t, _d in o.variables if S.unwrap(t) == "Boolean" and S.nullable(t)[0] == "named"]
+                    if bool_vars and "skip-include" in d.features:
+                        limit = max(0, want - rng.choice([0, 1]))
+                        shared = MaxDepthValidationRule(limit, operation_name=o.name)
+                        for _ in range(4):
+                            vars2 = dict(variables)
+                            for n in bool_vars:
+                                vars2[n] = rng.random() < 0.5
+                            try:
+                                want2 = refdepth.depth(o.selection, d, vars2)
+                                flagged2 = bool(shared(case.schema, document, vars2))
+                            except KeyError:
+                                break
+                            except Exception as e:
+                                ctx.violation("raises:%s" % type(e).__name__, dict(witness, operation=o.name, variables=vars2), repr(e)[:200])
+                                break
+                            ctx.evaluated()
+                            ctx.count("shared_rule_calls")
+                            if flagged2 != (want2 > limit):
+                                ctx.violation("history:reused-rule-instance-gives-another-verdict",
+                                              dict(witness, operation=o.name, limit=limit, variables=vars2, expected_depth=want2),
+                                              "flagged=%r depth %d limit %d" % (flagged2, want2, limit))
+                                break
                 # filter semantics: unknown name -> nothing; no name -> all operations judged
                 ctx.evaluated()
                 try:
